@@ -30,10 +30,23 @@ class Ctx:
         self._facts: Dict[str, dict] = {}
         self._parents: Dict[str, Dict[int, ast.AST]] = {}
         self._env: Dict[str, dict] = {}
+        self._ds: Dict[str, FuncInfo] = {}
 
     # -- per function caches ----------------------------------------------
     def fn(self, qual: str) -> FuncInfo:
         return self.prog.fn(qual)
+
+    def desugared(self, fi: FuncInfo) -> FuncInfo:
+        """The same function with comprehension assignments written as accumulating loops (for rules phrased over loops)."""
+        key = fi.qual + "~loops"
+        if key not in self._ds:
+            from .core import desugar_comprehension_assignments
+            node = desugar_comprehension_assignments(fi.node)
+            if ast.dump(node) == ast.dump(fi.node):
+                self._ds[key] = fi
+            else:
+                self._ds[key] = FuncInfo(fi.name, key, fi.module, node, fi.cls, fi.parent, list(fi.decorators))
+        return self._ds[key]
 
     def env(self, fi: FuncInfo):
         if fi.qual not in self._env:
